@@ -230,9 +230,9 @@ def check_C09(tier):
 # ---------------------------------------------------------------------------
 # C10: fault enumeration over the position of the failing target call
 # ---------------------------------------------------------------------------
-VAL_FAULTS = ["exception", "exception2", "nan", "nan0d", "inf", "-inf", "complex", "vector", "none",
+VAL_FAULTS = ["exception", "exception2", "exception3", "nan", "nan0d", "inf", "-inf", "complex", "vector", "none",
               "complex_arr", "complex0d", "complex_np", "inf_arr"]
-SPEC_FAULTS = ["exception", "exception2", "pair_nan", "pair_inf", "not_pair", "triple", "sd_zero", "sd_neg",
+SPEC_FAULTS = ["exception", "exception2", "exception3", "pair_nan", "pair_inf", "not_pair", "triple", "sd_zero", "sd_neg",
                "sd_nan", "sd_inf", "sd_zero_arr", "none", "pair_complex_arr", "sd_complex_arr", "sd_neg_arr"]
 
 
@@ -310,7 +310,7 @@ def check_C17run(tier):
 
 
 def check_C18run(tier):
-    return run_level_check("C18", tier, ["core_det", "core_noisy", "cons", "steer"], design_cfgs=("BadsRun.cfg",))
+    return run_level_check("C18", tier, ["core_det", "core_noisy", "cons", "steer", "script", "optvar"], design_cfgs=("BadsRun.cfg",))
 
 
 def check_C14(tier):
@@ -411,6 +411,14 @@ def check_C16(tier):
                         "noise": {"mode": "det"}, "cons": None, "options": {"max_fun_evals": 45}, "seed": 11,
                         "faults": {"fit": list(p)}, "tags": ["fitfault", "det", "rosen", f"n{len(p)}",
                                                             "consecutive" if consecutive(p) else "single"]})
+    # third base problem (deterministic): a coarsely quantised bowl -- the local training sets hold exactly equal
+    # values, so "closest pair" and "above the 95th percentile" are decided on ties
+    for p in patterns_used:
+        if p and consecutive(p) and (tier == "thorough" or p[0] <= 3):
+            scs.append({"id": "g_plat_" + "_".join(map(str, p)), "D": 2, "geom": box,
+                        "target": {"family": "plateau", "min": [0.4, 0.6], "q": 0.25},
+                        "noise": {"mode": "det"}, "cons": None, "options": {"max_fun_evals": 45}, "seed": 5,
+                        "faults": {"fit": list(p)}, "tags": ["fitfault", "det", "plateau", f"n{len(p)}", "consecutive"]})
     injected = {}
 
     def post(v, results):
